@@ -27,7 +27,7 @@ def main():
     (lean / "DashLive.lean").write_text(
         "-- Root of the `DashLive` library (written by harness/setup.py: every module present).\n"
         + "".join(f"import {m}\n" for m in mods))
-    ok, out = common.lake_build(["DashLive", "driver"])
+    ok, out = common.lake_build(["DashLive", "driver"] + [f"driver_{p.lower()}" for p in sorted(gen_main.DRIVER_MODULES)])
     print(out[-3000:])
     return 0 if ok else 1
 
